@@ -106,3 +106,8 @@ Theorem C04_order_free : forall rs, NoDup (map res_key rs) -> forall o1 o2, Perm
     so_stackings (find_stackings rs o1) = so_stackings (find_stackings rs o2).
 Proof. exact stackings_order_free. Qed.
 Print Assumptions C04_order_free.
+
+(* pin: the library orders residues by the tuple (model, chain, number, insertion code or a blank) - what res_ltb models *)
+Lemma C04_pin_residue_order : res_order_as_modelled = true.
+Proof. reflexivity. Qed.
+Print Assumptions C04_pin_residue_order.
